@@ -6,6 +6,7 @@ R13.2  grouping agreement: MocksEmitter groups operations by tag exactly like En
 R13.3  mock bodies raise: every path of _transform_to_mock that writes a `def` writes `raise NotImplementedError(`
 R13.4  naming agreement: client class / module / Protocol / mock class names are derived from the canonical tag by the
        same functions in all six places
+R13.7  an instance-level memo table in the visit/endpoint generators is keyed by every parameter its value is computed from
 R13.6  a consumer that reads the nature from the one line closing a rendered signature obliges CodeWriter.write_function_signature to put the
        whole return annotation on that line (producer/consumer contract; not armed when every consumer joins the signature lines)
 R13.5  coroutine vs async-generator nature is decided from the same evidence in Protocol and mock (the rendered
@@ -169,6 +170,7 @@ def run(repo: Repo, rep: Report, tier: str) -> None:
                 rep.violation("R13.5", sub, f"{fn.fq}|nature|from-ir|{from_ir}",
                               f"the decision text derives from the IR ({from_ir}) instead of the rendered signature", fn.loc(t))
 
+    rule_memo_keys(repo, rep, "R13.7")
     # ---------------------------------------------------------------- R13.6 one-line sniffing obliges the signature writer
     # A consumer that looks for the return annotation in ONE rendered line (the line that closes the signature) relies on the
     # signature writer putting the whole annotation on that line; a consumer that joins the collected lines does not.
@@ -305,3 +307,79 @@ def _is_method_generator(fn: Function, recv: ast.AST) -> bool:
                     if isinstance(tg, ast.Attribute) and tg.attr == recv.attr and isinstance(n.value, ast.Call) and (dotted(n.value.func) or "").split(".")[-1] == "EndpointMethodGenerator":
                         return True
     return False
+
+
+# ------------------------------------------------------------------------------------------------ R13.7 memo keys in the shared generators
+_R137_EXAMPLE = '''
+class G:
+    def __init__(self):
+        self._memo = {}
+
+    def get(self, content_type, schema, context):
+        if content_type not in self._memo:
+            self._memo[content_type] = self._map(content_type, schema, context)
+        return self._memo[content_type]
+'''
+
+
+def _memo_hazards(cls_node: ast.ClassDef):
+    """(method, table attr, key text, missing params, store node) for every instance-level memo table whose key omits a parameter
+    the memoised value is computed from."""
+    out = []
+    n_tables = 0
+    for fn in cls_node.body:
+        if not isinstance(fn, (ast.FunctionDef, ast.AsyncFunctionDef)) or fn.name == "__init__":
+            continue
+        L = Locals(fn)
+        params = [p for p in L.params if p not in ("self", "cls")]
+        for st in own_nodes(fn):
+            if not (isinstance(st, ast.Assign) and len(st.targets) == 1 and isinstance(st.targets[0], ast.Subscript)):
+                continue
+            tg = st.targets[0]
+            if not (isinstance(tg.value, ast.Attribute) and isinstance(tg.value.value, ast.Name) and tg.value.value.id == "self"):
+                continue
+            table = tg.value.attr
+            # a memo table: the same function also reads the table under a key (membership, subscript load, .get)
+            reads = [n for n in own_nodes(fn) if (
+                (isinstance(n, ast.Compare) and len(n.ops) == 1 and isinstance(n.ops[0], (ast.In, ast.NotIn)) and dotted(n.comparators[0]) == f"self.{table}")
+                or (isinstance(n, ast.Subscript) and isinstance(n.ctx, ast.Load) and dotted(n.value) == f"self.{table}")
+                or (isinstance(n, ast.Call) and isinstance(n.func, ast.Attribute) and n.func.attr == "get" and dotted(n.func.value) == f"self.{table}"))]
+            if not reads:
+                continue
+            n_tables += 1
+            key = L.inline(tg.slice, stop=tuple(L.params))
+            val = L.inline(st.value, stop=tuple(L.params))
+            key_names = {x.id for x in ast.walk(key) if isinstance(x, ast.Name)}
+            used = [p for p in params if any(isinstance(x, ast.Name) and x.id == p for x in ast.walk(val))]
+            if not any(isinstance(x, ast.Call) for x in ast.walk(val)):
+                continue  # a plain registration (table[k] = v), not a memoised computation
+            missing = [p for p in used if p not in key_names]
+            if missing:
+                out.append((fn, table, norm(tg.slice), missing, st))
+    return out, n_tables
+
+
+def rule_memo_keys(repo: Repo, rep: Report, rule: str = "R13.7") -> None:
+    ex = ast.parse(_R137_EXAMPLE).body[0]
+    hz, _ = _memo_hazards(ex)  # type: ignore[arg-type]
+    rep.require(len(hz) == 1 and hz[0][3] == ["schema", "context"], f"{rule}: the built-in positive example is no longer recognised - the rule is broken")
+    n_cls = n_tab = n_bad = 0
+    for m in repo.modules.values():
+        if ".visit.endpoint." not in "." + m.name + ".":
+            continue
+        for c in m.classes.values():
+            n_cls += 1
+            hz, nt = _memo_hazards(c.node)
+            n_tab += nt
+            for fn, table, key, missing, st in hz:
+                n_bad += 1
+                rep.violation(rule, f"{m.relpath}:{c.name}.{fn.name} memo `self.{table}`", f"{m.name}:{c.name}.{fn.name}|memo-key-incomplete|{table}|{','.join(missing)}",
+                              f"`{norm(st)[:90]}`: the value is computed from {missing} as well, but the table is keyed by `{key}` only. Generator instances are "
+                              "re-used across operations (and the mock emitter re-uses one instance for a whole tag): a later operation with the same key gets the "
+                              "earlier operation's answer, so client, Protocol and mock signatures diverge", f"{m.relpath}:{st.lineno}")
+    rep.require(n_cls >= 8, f"{rule}: only {n_cls} classes under visit/endpoint were analysed (floor 8)")
+    rep.count(f"{rule}:classes", n_cls)
+    rep.count(f"{rule}:memo_tables", n_tab)
+    if not n_bad:
+        rep.ok(rule, "visit/endpoint generator and processor classes", f"{n_cls} classes, {n_tab} instance-level memo table(s): every memo key covers the parameters "
+               "the value is computed from", "src/pyopenapi_gen/visit/endpoint:1")
